@@ -1,10 +1,10 @@
 #!/bin/bash
-# usage: regress.sh [refactors|seeds|all] [filter-regexp]
+# usage: regress.sh [refactors|seeds|combos|all] [filter-regexp] [property-regexp]
 # Runs the checks against scratch copies of /repo with (a) every behaviour-preserving
 # refactoring under /verif/refactors applied (expect: no alarm from any of the 20 checks) and
 # (b) every seeded breaking change under /verif/seeded applied (expect: its property's check alarms).
 # Scratch copies live under /tmp/rr and are removed afterwards. Never touches /repo.
-MODE=${1:-all}; FILTER=${2:-.}
+MODE=${1:-all}; FILTER=${2:-.}; PROPS=${3:-.}
 ROOT=/tmp/rr; rm -rf $ROOT; mkdir -p $ROOT/evid
 export GOWORK=off GOFLAGS=-mod=mod GOPROXY=off GOSUMDB=off GOTOOLCHAIN=local GOMAXPROCS=3
 ( cd /verif/checker && go build -o /verif/bin/ocivet ./cmd/ocivet ) || exit 2
@@ -15,7 +15,7 @@ mkcopy() { # name patch
 if [ $MODE = refactors ] || [ $MODE = all ]; then
   for d in /verif/refactors/*/; do n=$(basename $d); echo $n | grep -Eq "$FILTER" || continue
     mkcopy ref-$n $d/patch.diff || continue
-    for i in $(seq -w 1 20); do echo "ref-$n C$i clean" >> $jobs; done
+    for i in $(seq -w 1 20); do echo C$i | grep -Eq "$PROPS" || continue; echo "ref-$n C$i clean" >> $jobs; done
   done
 fi
 if [ $MODE = seeds ] || [ $MODE = all ]; then
@@ -23,6 +23,14 @@ if [ $MODE = seeds ] || [ $MODE = all ]; then
     [ $n = C14-B ] && continue
     mkcopy seed-$n $d/patch.diff || continue
     echo "seed-$n ${n%%-*} alarm" >> $jobs
+  done
+fi
+if [ $MODE = combos ] || [ $MODE = all ]; then
+  # a refactoring followed by a break of the refactored code: the alarm must still be raised
+  for d in /verif/combos/*/; do n=$(basename $d); echo $n | grep -Eq "$FILTER" || continue
+    mkcopy combo-$n /verif/refactors/$(cat $d/base)/patch.diff || continue
+    ( cd $ROOT/combo-$n && patch -s -p1 < $d/patch.diff ) || { echo "PATCH-FAILED combo-$n"; continue; }
+    echo "combo-$n $(cat $d/prop) alarm" >> $jobs
   done
 fi
 run1() { c=$1; p=$2; want=$3
